@@ -462,6 +462,7 @@ ESelect ==
 EOther ==
   /\ Consume /\ Ev.e \notin {"reset", "submit", "tick", "commit", "respond", "send", "route", "crash",
                             "restart", "end", "observe", "quiesce", "chars", "cursor", "select"}
+  \* ("due": the schedules a firing cycle took, judged by C10_SweepTakesTheMostOverdue in this very state)
   /\ pdb' = db /\ chk' = NoChk /\ path' = <<db>>
   /\ UNCHANGED <<db, exp, now, reqs, cand, snaps, faulted, sends, lapsed, plapsed, claims, seen, cfg, cyc, q0, rerr, idc, trav>>
 
@@ -645,6 +646,18 @@ C10_AdvancesByOneT == Steps(C10_AdvancesByOne)
 C10_NotEarlyT == \A i \in 1..(Len(path) - 1) : C10_NotEarly(path[i], path[i + 1], now)
 C10_FiringCreatesPromiseT == Steps(C10_FiringCreatesPromise)
 C10_NextAfterCreationT == C10_NextAfterCreation(db)
+\* a firing cycle takes the schedules that are due, the most overdue first when the batch size does not take them all
+\* (ties: the older schedule) - otherwise a schedule that is always due keeps the others from ever firing
+C10_SweepTakesTheMostOverdue ==
+  Last.e = "due" =>
+    LET due == {sid \in DOMAIN db.schedules : db.schedules[sid].next <= Last.time}
+        ids == Last.ids
+        Before(a, b) == \/ db.schedules[a].next < db.schedules[b].next
+                        \/ db.schedules[a].next = db.schedules[b].next /\ Pos(db.sorder, a) < Pos(db.sorder, b)
+    IN /\ Len(ids) = (IF Last.limit < Cardinality(due) THEN Last.limit ELSE Cardinality(due))
+       /\ \A i \in DOMAIN ids : ids[i] \in due
+       /\ \A i, j \in DOMAIN ids : i # j => ids[i] # ids[j]
+       /\ \A sid \in due \ {ids[i] : i \in DOMAIN ids} : \A i \in DOMAIN ids : Before(ids[i], sid)
 C10_ScheduleChanges == IsStep => chk.tables \cap {"schedules", "sorder"} = {}
 \* the promise of an occurrence is created in the transaction that advances the schedule: a firing
 \* transaction without the advance (or any other change the sweep makes that level A does not know) is refused
@@ -677,19 +690,38 @@ C14_SearchChangesOnlyTimeouts ==
 \* ":" derive the same id from different pairs): every completion or time-out of its promise is refused
 \* by the store (UNIQUE constraint in the bulk task insert), so the promise stays pending for ever
 IsF2(S, p) == \E cb \in CallbacksOn(S, p) : Has(S.tasks, cb)
+\* F17 (known finding): a schedule whose promise id template cannot be rendered is accepted (only its cron expression is
+\* validated); every firing cycle skips it without advancing it, so it stays due for ever - and since the cycle takes
+\* the most overdue schedules first, it occupies a place in every batch: with a schedule batch size of one nothing else fires
+Unrenderable == {"{{.id", "{{index .id 99}}"}
+IsF17(Q, sid) == Q.schedules[sid].promiseId \in Unrenderable
+SchedulesCaughtUp(Q, t) ==
+  LET stuck == {sid \in DueSchedules(Q, t) : IsF17(Q, sid)}
+      starved == IF Cardinality(stuck) >= cfg.scheduleBatchSize THEN DueSchedules(Q, t) ELSE stuck IN
+  /\ DueSchedules(Q, t) \ starved = {}
+  /\ (stuck # {} => "F17" \in Known /\ NoteFinding("F17"))
 ConvergedButKnown(Q, t) ==
   LET stuck == {p \in DuePromises(Q, t) : IsF2(Q, p)} IN
   /\ DuePromises(Q, t) \ stuck = {}
   /\ (stuck # {} => "F2" \in Known /\ NoteFinding("F2"))
   /\ \A r \in DOMAIN Q.locks : Q.locks[r].expiresAt > t
-  /\ DueSchedules(Q, t) = {}
+  /\ SchedulesCaughtUp(Q, t)
   /\ ExpirableTasks(Q, TaskBusy, t) = {}
+\* C10, "none skipped, missed occurrences are caught up": when the run ends no occurrence is left behind
+C10_CaughtUpAtEnd == (Last.e = "end" /\ q0.t >= 0) => SchedulesCaughtUp(db, q0.t)
+HandoffsSucceededSince(t) == \A k \in DOMAIN sends : sends[k].t >= t => sends[k].outcome = "ok"
+HandedOffSince(r, t) == \E k \in DOMAIN sends : /\ sends[k].t >= t /\ sends[k].outcome = "ok"
+                                                  /\ Has(db.tasks, k[1]) /\ db.tasks[k[1]].rootId = r
 C11_ConvergedAtEnd ==
   (Last.e = "end" /\ q0.t >= 0) =>
      /\ ConvergedButKnown(db, q0.t)
      \* the dispatcher takes one task per root promise and cycle, the oldest first: what must not happen
      \* is that a ROOT with something to dispatch is never served (a younger sibling legitimately waits
      \* behind an older one that nobody claims)
+     \* ("while hand-offs succeed": a root whose address cannot be delivered to is taken again at every cycle, and with a
+     \* small task batch size the roots behind it wait as long as that lasts - the statement leaves that case out)
+     \* (a root whose own hand-off did succeed is owed the record of it whatever happened to the others)
      /\ \A r \in EnqueueableRoots(db) \cap EnqueueableRoots(q0.db) :
-           \E x \in DOMAIN db.tasks : db.tasks[x].rootId = r /\ (~ Has(q0.db.tasks, x) \/ db.tasks[x] # q0.db.tasks[x])
+           (HandoffsSucceededSince(q0.t) \/ HandedOffSince(r, q0.t)) =>
+             \E x \in DOMAIN db.tasks : db.tasks[x].rootId = r /\ (~ Has(q0.db.tasks, x) \/ db.tasks[x] # q0.db.tasks[x])
 =============================================================================
